@@ -9,20 +9,37 @@ E3 = 'E3 io.BytesIO read/write/seek/tell/getvalue model (pyvc/streams.py)'
 E4 = 'E4 bytes.decode/str.encode are uninterpreted partial functions raising UnicodeError/LookupError'
 E5 = 'E5 parameter expressions are total functions of the context of the declared type (may raise KeyError/AttributeError only where stated)'
 
+GENERIC_NOTE = ('every _parse/_build/_sizeof/_decode/_encode/_actualsize body of construct/core.py (core classes; Pickled, Numpy, NamedTuple, Timestamp, '
+                'Slicing, Indexing, CompressedLZ4, Encrypted*, Rebuffered, Expr* adapters are out of scope) is executed symbolically from the real AST '
+                'against the Construct interface contract, assuming only that contract of its sub-constructs (structural induction over construct trees)')
+
+NOT_APPLICABLE = {}
+
 PROPS = {
     'C03': dict(functional=True, generic=False, level='proof',
+                level_text='Each function under contract is proved, path by path and for all inputs (symbolic values, buffers, positions; loops by invariant), to build exactly the bytes / parse exactly the value and extent that a specification written from the wire format prescribes, and to reject exactly what the specification rejects. Functions covered so far are listed in the evidence (functions_under_contract); constructs not listed there are not yet covered by this check.',
+                level_note='Trusted: the VC generator pyvc and its Python-subset semantics (DESIGN.md 1.3), the solvers, the assumed contracts of CPython built-ins E1 struct (floats uninterpreted), E2 int.to_bytes/from_bytes, E3 io.BytesIO. Module tables are enumerated natively.',
                 trusted_base=[E1, E2, E3],
                 assumptions=PY_SEM + [E1, E2, E3, E5, 'floats: bit patterns not verified'],
                 explanation='each function under contract is verified path by path against a specification written from the wire format'),
     'C06': dict(functional=True, generic=True, level='proof', trusted_base=[E3, E5],
+                level_text='For ' + GENERIC_NOTE + ': on every path, under an exact io.BytesIO model and under an adversarial stream model (every stream call may raise any Exception, return data of any length or any integer), only ConstructError subclasses escape _parse (StreamError for the stream helpers), no stream exception escapes _build unwrapped, and a normal return never hides a short write. Truncated input is StreamError for the primitives under functional contract. Termination is proved only for the loops that carry a variant (VarInt._build, integer2bits).',
+                level_note='Assumes E5 (context expressions total and of the declared type in parse/build), valid parameterisation (documented parameter types; FocusedSeq/Union selectors name a member), sub-constructs satisfying the same clauses (induction), user callables outside the property. Known finding: Compressed leaks codec library errors.',
                 assumptions=PY_SEM + [E3, E5, 'adversarial stream: methods raise any Exception subclass, read returns bytes of any length, write/seek/tell return any int',
                                       'sub-constructs satisfy the interface contract (structural induction)'],
                 explanation='exception classes escaping every _parse/_build/_sizeof under both stream models'),
     'C18': dict(functional=True, generic=True, level='proof', trusted_base=[E5],
+                level_text='For ' + GENERIC_NOTE + ': every ConstructError raised carries path= and that path extends the method\'s path argument; every sub-construct call receives the method\'s path (Renamed: path + " -> name", proved as a postcondition on the escaping error); the stream helpers raise with the path they were given. By induction on nesting the escaping path is the operation tag followed by the names of the enclosing Renamed members in order. The public entry points and the truncation-offset lemma are not yet under contract.',
+                level_note='Assumes the interface clause for sub-constructs (errors extend the path they were handed), which is what each class is proved to establish. Known findings: Tunnel._parse and Select._build restart the path by re-entering through the public parse/build.',
                 assumptions=PY_SEM + [E5, 'sub-constructs raise errors whose path extends the path they were given (interface clause, established per class)']),
     'C05': dict(functional=True, generic=True, level='proof', trusted_base=[E5],
+                level_text='For every _sizeof body of the core classes: whatever the context expressions do (including raising KeyError/AttributeError for a missing key), only SizeofError escapes and a returned size is an int >= 0, assuming only that of sub-constructs. Exactness of the size against the stream advance of build and parse is proved for the classes under functional contract listed in the evidence.',
+                level_note='Documented exemptions are preconditions: lengths/counts >= 0, moduli >= 2. Sub-constructs are assumed to satisfy the same clauses (induction).',
                 assumptions=PY_SEM + [E5, 'lengths/counts are non-negative and moduli >= 2 (documented exemption)']),
-    'C10': dict(functional=True, generic=False, level='proof', trusted_base=[], assumptions=PY_SEM),
+    'C10': dict(functional=True, generic=False, level='proof', trusted_base=[], assumptions=PY_SEM, claimed=False,
+                level_text='bit/byte regrouping helpers proved against MSB-first specifications', level_note='helpers only so far'),
     'C17': dict(functional=False, generic=True, level='proof', trusted_base=[E3],
+                level_text='Frame conditions for ' + GENERIC_NOTE + ': no method stores to an attribute of self, of a sub-construct, of a class or module; parsing leaves the stream buffer unchanged; the context argument is modified only at _index and unrelated pre-existing containers are untouched (proved through every loop as an invariant). Outcomes of sub-construct calls are functions of (construct, buffer, position, context), so repeated or interleaved calls agree. Threads are not explored: with the frames proved, calls share no mutable state except caller-supplied arguments.',
+                level_note='Thread schedules are argued from the frames, not explored. parse_file/build_file and the bytes/bytearray/memoryview entry points are not under contract yet. Documented exceptions (Rebuffered.stream2, Debugger.retval) are out of scope.',
                 assumptions=PY_SEM + ['threads: not explored; argued from the proved frames (no shared mutable state)']),
 }
